@@ -1,13 +1,16 @@
 /-
   C19 — Multinomial (hand model `Statrs.Model.Multinomial`).
 
-  Strength tags: full(∀α) for `mean`, the symmetry of `variance`, and the shape of `ln_pmf` that
-  exhibits the `0 · ln 0` evaluation (FINDING: `ln_pmf` is NaN on IEEE carriers when some
-  `p_i = 0` and `x_i = 0` although `pmf > 0`); full(ℝ) for the normalisation done by `new`
+  Strength tags: full(∀α) for `mean`, the symmetry of `variance`, and the shape of `ln_pmf`: since
+  the source fix a category with count `x_i = 0` contributes the literal `0.0` and `ln p_i` is
+  not evaluated, so on EVERY carrier (IEEE included) `ln_pmf` does not depend on the
+  probabilities of zero-count categories (`multinomial_ln_pmf_zero_count_indep`; the former
+  `0 · ln 0 = NaN` finding is gone); full(ℝ) for the normalisation done by `new`
   (`Σ p = 1`, proportional to the input), the documented covariance closed form and
-  `ln_pmf = ln ∘ pmf` on `pmf > 0`; rel(`Spec.MultinomialSpec`) for `pmf ≥ 0`, the coincidence of
-  the two-category Multinomial with the generated `Binomial`, permutation invariance and
-  `Σ_x pmf x = 1` over all count vectors (file `MultinomialSum.lean`).
+  `ln_pmf = ln ∘ pmf` on `pmf > 0`; rel(`Spec.MultinomialSpec`) for the coincidence of the
+  two-category `ln_pmf` with the generated `Binomial.ln_pmf` (including `p = 0`, `k = 0` and
+  `p = 1`, `k = n`), and — in `MultinomialRel.lean` / `MultinomialSum.lean` — `pmf ≥ 0`, the
+  two-category `pmf` = `Binomial.pmf`, permutation invariance and `Σ_x pmf x = 1`.
 -/
 import Statrs.Real.Simp
 import Statrs.Model.Multivariate
@@ -20,7 +23,7 @@ set_option linter.unusedVariables false
 namespace Statrs.Props.C19
 open Statrs Statrs.Gen Statrs.Model Statrs.Lemmas.Multivariate
 
-/-! ### every carrier: accessors, symmetry, and the `0 · ln 0` term of `ln_pmf` -/
+/-! ### every carrier: accessors, symmetry, and the zero-count terms of `ln_pmf` -/
 section generic
 variable {α : Type} [Add α] [Sub α] [Mul α] [Div α] [Neg α] [LT α] [LE α] [BEq α]
   [DecidableLT α] [DecidableLE α] [OfScientific α] [Inhabited α] [RFun α] [SF α]
@@ -61,13 +64,15 @@ theorem multinomial_variance_symm (d : Multinomial α) :
   · rw [if_neg (by omega), if_pos hcr]
 
 /-- The value `ln_pmf` computes on a count vector of the right length and total:
-    `ln(multinomial(n, x)) + fold(0, +) [x_i as f64 * ln(p_i)]` — every term `x_i * ln p_i` is
-    evaluated, including those with `p_i = 0` and `x_i = 0`. -/
+    `ln(multinomial(n, x)) + fold(0, +) [if x_i == 0 { 0.0 } else { x_i as f64 * ln(p_i) }]` —
+    a category with count 0 contributes the literal `0.0`; `ln p_i` is only evaluated when
+    `x_i ≠ 0`. -/
 theorem multinomial_ln_pmf_shape (d : Multinomial α) (x : List Int)
     (hlen : d.f_p.length = x.length) (hsum : x.foldl (fun a b => a + b) 0 = d.f_n) :
     Multinomial.ln_pmf? d x = some
       (RFun.ln (SF.multinomial d.f_n x : α) +
-        ((List.zip d.f_p x).map (fun pi_xi => (RFun.ofInt pi_xi.2 : α) * RFun.ln pi_xi.1)).foldl
+        ((List.zip d.f_p x).map (fun pi_xi =>
+            if pi_xi.2 = 0 then (0.0 : α) else (RFun.ofInt pi_xi.2 : α) * RFun.ln pi_xi.1)).foldl
           (fun acc t => acc + t) (0.0 : α)) := by
   unfold Multinomial.ln_pmf?
   rw [if_neg (not_not.mpr hlen), if_neg (not_not.mpr hsum)]
@@ -87,23 +92,68 @@ theorem foldl_absorbing (N : α) (hl : ∀ a : α, N + a = N) (hr : ∀ a : α, 
       | cons b t ih2 => rw [List.foldl_cons, hl]; exact ih2
     · exact ih h _
 
-/-- FINDING (every carrier): if some category has `p_i = 0` and count `x_i = 0`, then `ln_pmf`
-    evaluates `0 * ln 0`.  On any carrier where that product is an additively absorbing value `N`
-    (IEEE: `0 * ln 0 = 0 * -inf = NaN`, and NaN absorbs `+`) the result is `N`, i.e. NaN — although
-    `pmf` of the same argument is the finite positive mass `coeff · Π_{j≠i} p_j^{x_j}` (`0^0 = 1`).
-    Over ℝ the defect is invisible because `0 * Real.log 0 = 0`. -/
-theorem multinomial_ln_pmf_zero_prob_absorbs (d : Multinomial α) (x : List Int)
-    (hlen : d.f_p.length = x.length) (hsum : x.foldl (fun a b => a + b) 0 = d.f_n)
-    (z : α) (hz : (z, (0 : Int)) ∈ List.zip d.f_p x)
-    (N : α) (hN : (RFun.ofInt 0 : α) * RFun.ln z = N)
-    (hl : ∀ a : α, N + a = N) (hr : ∀ a : α, a + N = N) :
-    Multinomial.ln_pmf d x = N := by
+/-- the per-category terms of `ln_pmf` only read `p_i` where `x_i ≠ 0` -/
+theorem ln_pmf_terms_congr (p p' : List α) (x : List Int) (hlen : p.length = p'.length)
+    (hag : ∀ i : Nat, x.getD i 0 ≠ 0 → p.getD i default = p'.getD i default) :
+    (List.zip p x).map (fun pi_xi =>
+        if pi_xi.2 = 0 then (0.0 : α) else (RFun.ofInt pi_xi.2 : α) * RFun.ln pi_xi.1) =
+    (List.zip p' x).map (fun pi_xi =>
+        if pi_xi.2 = 0 then (0.0 : α) else (RFun.ofInt pi_xi.2 : α) * RFun.ln pi_xi.1) := by
+  induction x generalizing p p' with
+  | nil => simp
+  | cons b xs ih =>
+    cases p with
+    | nil =>
+      cases p' with
+      | nil => rfl
+      | cons a' t' => simp at hlen
+    | cons a t =>
+      cases p' with
+      | nil => simp at hlen
+      | cons a' t' =>
+        simp only [List.zip_cons_cons, List.map_cons]
+        have htl := ih t t' (by simpa using hlen) (fun i hi => by
+          have := hag (i + 1) (by simpa using hi)
+          simpa using this)
+        rw [htl]
+        congr 1
+        by_cases hb : b = 0
+        · simp [hb]
+        · have : a = a' := by
+            have := hag 0 (by simpa using hb)
+            simpa using this
+          rw [this]
+
+/-- FIXED (every carrier, IEEE included): `ln_pmf` does not depend on the probabilities of the
+    categories whose count is 0 — such a category contributes the literal `0.0`, and `ln p_i` is
+    not evaluated for it.  In particular a category with `p_i = 0` and `x_i = 0` no longer
+    produces `0 · ln 0 = 0 · (−∞) = NaN` (the pre-fix finding
+    `multinomial_ln_pmf_zero_prob_absorbs`): the result is the same as with any other value in
+    place of that `p_i`. -/
+theorem multinomial_ln_pmf_zero_count_indep (p p' : List α) (n : Int) (x : List Int)
+    (hlen : p.length = p'.length)
+    (hag : ∀ i : Nat, x.getD i 0 ≠ 0 → p.getD i default = p'.getD i default) :
+    Multinomial.ln_pmf? ({ f_p := p, f_n := n } : Multinomial α) x =
+      Multinomial.ln_pmf? ({ f_p := p', f_n := n } : Multinomial α) x ∧
+    Multinomial.ln_pmf ({ f_p := p, f_n := n } : Multinomial α) x =
+      Multinomial.ln_pmf ({ f_p := p', f_n := n } : Multinomial α) x := by
+  have key : Multinomial.ln_pmf? ({ f_p := p, f_n := n } : Multinomial α) x =
+      Multinomial.ln_pmf? ({ f_p := p', f_n := n } : Multinomial α) x := by
+    unfold Multinomial.ln_pmf?
+    simp only [hlen, ln_pmf_terms_congr p p' x hlen hag]
+  exact ⟨key, by unfold Multinomial.ln_pmf; rw [key]⟩
+
+/-- two categories, the first with count 0: the value is
+    `ln(multinomial(n,[0,n])) + ((0.0 + 0.0) + [n ≠ 0] n·ln p)` whatever the first probability `z`
+    is (`z = 0` included) — `z` does not occur on the right-hand side. -/
+theorem multinomial_two_ln_pmf_zero_count (z p : α) (n : Int) :
+    Multinomial.ln_pmf ({ f_p := [z, p], f_n := n } : Multinomial α) [0, n] =
+      RFun.ln (SF.multinomial n [0, n] : α) +
+        (((0.0 : α) + (0.0 : α)) + (if n = 0 then (0.0 : α) else (RFun.ofInt n : α) * RFun.ln p)) := by
   unfold Multinomial.ln_pmf
-  rw [multinomial_ln_pmf_shape d x hlen hsum]
-  simp only [unwrapO]
-  rw [foldl_absorbing N hl hr _ _ _, hr]
-  rw [← hN]
-  exact List.mem_map.mpr ⟨(z, 0), hz, rfl⟩
+  rw [multinomial_ln_pmf_shape ({ f_p := [z, p], f_n := n } : Multinomial α) [0, n] rfl
+    (by simp [List.foldl])]
+  rfl
 
 end generic
 
@@ -219,6 +269,14 @@ theorem multinomial_pmf_closed (d : Multinomial ℝ) (x : List Int)
     rw [multinomial_ln_pmf_shape d x hlen hs]
     simp only [unwrapO]
     rw [foldl_add_eq_sum, lit0, zero_add]
+    have hf : (fun pi_xi : ℝ × Int =>
+          if pi_xi.2 = 0 then (0 : ℝ) else (RFun.ofInt pi_xi.2 : ℝ) * RFun.ln pi_xi.1) =
+        (fun q : ℝ × Int => ((q.2 : ℤ) : ℝ) * Real.log q.1) := by
+      funext q
+      by_cases hq : q.2 = 0
+      · simp [hq]
+      · rw [if_neg hq]; rfl
+    rw [hf]
     rfl
 
 theorem log_prod_rpow (l : List (ℝ × ℤ)) (hp : ∀ q ∈ l, 0 ≤ q.1)
@@ -241,8 +299,9 @@ theorem log_prod_rpow (l : List (ℝ × ℤ)) (hp : ∀ q ∈ l, 0 ≤ q.1)
       · exact absurd (Real.zero_rpow hx) h1
 
 /-- full(ℝ): `ln_pmf = ln ∘ pmf` wherever `pmf > 0`, for every stored probability vector with
-    non-negative entries (what `new` produces), including vectors with zero entries
-    (over ℝ `0 * ln 0 = 0`; contrast `multinomial_ln_pmf_zero_prob_absorbs`). -/
+    non-negative entries (what `new` produces), including vectors with zero entries: a
+    zero-probability category necessarily has count 0 when `pmf > 0`, and such a category
+    contributes `0.0` to `ln_pmf` (on every carrier: `multinomial_ln_pmf_zero_count_indep`). -/
 theorem multinomial_ln_pmf_eq_log_pmf (d : Multinomial ℝ) (hp : ∀ e ∈ d.f_p, 0 ≤ e) (x : List Int)
     (h : 0 < Multinomial.pmf d x) :
     Multinomial.ln_pmf d x = Real.log (Multinomial.pmf d x) := by
@@ -266,6 +325,60 @@ theorem multinomial_ln_pmf_eq_log_pmf (d : Multinomial ℝ) (hp : ∀ e ∈ d.f_
     unfold Multinomial.pmf Multinomial.pmf? at h
     rw [if_pos hlen] at h
     simp [unwrapO, hd] at h
+
+/-! ### two categories: `ln_pmf` of Multinomial([p, 1-p], n) at (k, n-k) is `Binomial.ln_pmf` -/
+
+/-- rel: the two-category Multinomial log-mass at `(k, n−k)` equals the generated
+    `Binomial.ln_pmf` at `k`, for every `0 ≤ k ≤ n` at which the Binomial log-mass is finite —
+    INCLUDING the zero-probability category with zero count: `p = 0, k = 0` (first category) and
+    `p = 1, k = n` (second category), where `Binomial.ln_pmf` returns the literal `0.0`.
+    (`p = 0, k ≠ 0` and `p = 1, k ≠ n` are excluded only because both sides are `−∞`, which the
+    carrier ℝ cannot represent.) -/
+theorem multinomial_two_ln_pmf_eq_binomial_rel (M : Spec.MultinomialSpec) (p q : ℝ) (n k : ℕ)
+    (hpq : p + q = 1) (hk : k ≤ n) (h0 : p = 0 → k = 0) (h1 : p = 1 → k = n) :
+    Multinomial.ln_pmf ({ f_p := [p, q], f_n := (n : ℤ) } : Multinomial ℝ) [(k : ℤ), (n : ℤ) - (k : ℤ)] =
+      Binomial.ln_pmf ({ f_p := p, f_n := (n : ℤ) } : Binomial ℝ) (k : ℤ) := by
+  have hq1 : q = 1 - p := by linarith
+  have hxs : ([(k : ℤ), (n : ℤ) - (k : ℤ)] : List ℤ).sum = (n : ℤ) := by simp
+  have hnk : (n : ℤ) - (k : ℤ) = ((n - k : ℕ) : ℤ) := by omega
+  have hC : (SF.multinomial (n : ℤ) [(k : ℤ), (n : ℤ) - (k : ℤ)] : ℝ) = (Nat.choose n k : ℝ) := by
+    have := M.multinomial_eq [k, n - k]
+    simp only [List.sum_cons, List.sum_nil, add_zero, List.map_cons, List.map_nil,
+      Nat.add_sub_cancel' hk] at this
+    rw [hnk, this]
+    have h0 : List.multinomial [] = 1 := Multiset.multinomial_zero
+    simp [List.multinomial_cons, Nat.add_sub_cancel' hk, h0]
+  rw [(multinomial_pmf_closed _ _ rfl hxs).2, hC]
+  simp only [List.zip_cons_cons, List.zip_nil_right, List.map_cons, List.map_nil, List.sum_cons,
+    List.sum_nil, add_zero, Int.cast_natCast, hnk]
+  unfold Binomial.ln_pmf
+  rfun_norm
+  simp only [lit0, lit1]
+  rw [if_neg (by omega)]
+  have hun : usub (n : ℤ) (k : ℤ) = ((n - k : ℕ) : ℤ) := by
+    unfold usub; rw [if_neg (by omega)]; omega
+  by_cases hp0 : p = 0
+  · have hk0 := h0 hp0
+    subst hp0; subst hk0
+    have : q = 1 := by linarith
+    subst this
+    simp
+  · rw [if_neg hp0]
+    by_cases hp1 : p = 1
+    · have hkn := h1 hp1
+      subst hp1; subst hkn
+      have : q = 0 := by linarith
+      subst this
+      simp
+    · rw [if_neg (by simpa using hp1)]
+      rw [M.ln_binomial_eq n k hk, hun, hq1]
+      simp only [Int.cast_natCast]
+      rw [add_assoc]
+
+example : ∃ (_ : SF ℝ) (_ : Spec.MultinomialSpec) (p q : ℝ) (n k : ℕ),
+    p + q = 1 ∧ k ≤ n ∧ (p = 0 → k = 0) ∧ (p = 1 → k = n) :=
+  ⟨Spec.sfWitnessMultinomial, Spec.multinomialSpec_witness, 0, 1, 5, 0, by norm_num, by norm_num,
+    fun _ => rfl, fun h => by norm_num at h⟩
 
 end real
 
